@@ -512,8 +512,8 @@ def run(tier, seed):
         for h in itertools.product(alpha, repeat=d):
             cases.append(("enum", list(h)))
             nenum += 1
-    nfree = 20000 if tier == "quick" else 600000
-    nworld = 40000 if tier == "quick" else 1200000
+    nfree = 50000 if tier == "quick" else 600000
+    nworld = 100000 if tier == "quick" else 1200000
     for _ in range(nfree):
         cases.append(("free", rand_free(rng)))
     for _ in range(nworld):
@@ -596,7 +596,7 @@ def run(tier, seed):
     lua_cases = []   # (id, name, src, opts, expect)
     for name, src, opts, expect in LUA_FIXED:
         lua_cases.append((name, src, opts, expect, "fixed"))
-    nlua = 1000 if tier == "quick" else 20000
+    nlua = 2000 if tier == "quick" else 20000
     for j in range(nlua):
         src, expect = lua_program(rng)
         lua_cases.append(("gen%d" % j, src, "", expect, "generated"))
